@@ -2356,6 +2356,301 @@ def _delivered_through_generic_helper(ck, bcls, fa, name, src, explicit, me):
     return False
 
 
+# ---------------------------------------------------------------------------------------------
+# C02.R11  "same class when it can be rebuilt": the name from_exception writes is read back whole
+#
+# from_exception writes `<language>::<module>:<qualified class name>` from a template; to_exception takes the
+# fields out again with a pattern.  A field that the pattern's group cannot hold in full is cut (match() is a
+# prefix match) or refused, and the replay then resolves another class (the outer one of a nested class) or
+# none.  Decided on the pattern's parse tree, never by matching: for the k-th field of the template, every
+# character the field's source can contain (a module path: identifier characters and dots; a qualified class
+# name: identifier characters and dots, which the reader itself splits on) must be accepted by some item inside
+# the k-th group the reader takes out.  A reader that is not a pattern (partition / split) rejects no character.
+# ---------------------------------------------------------------------------------------------
+_IDENT_SAMPLE = ("a", "Z", "0", "_", "é")
+
+
+def _field_alphabet(fa, e, at):
+    """Characters (a representative sample) that a written field can contain, from what it is computed from."""
+    if isinstance(e, ast.Constant) and isinstance(e.value, str):
+        return tuple(sorted(set(e.value))), "the constant %r" % e.value, "const"
+    try:
+        x = fa.expand(e, at)
+    except AnalysisError:
+        x = e
+    if isinstance(x, ast.Constant) and isinstance(x.value, str):
+        return tuple(sorted(set(x.value))), "the constant %r" % x.value, "const"
+    attrs = {n.attr for n in ast.walk(x) if isinstance(n, ast.Attribute)}
+    attrs |= {A.const_str(n.args[1]) for n in ast.walk(x) if isinstance(n, ast.Call) and isinstance(n.func, ast.Name) and n.func.id == "getattr" and len(n.args) >= 2}
+    if "__qualname__" in attrs:
+        return _IDENT_SAMPLE + (".",), "a qualified class name (`Outer.Inner` for a nested class)", "class"
+    if "__module__" in attrs:
+        return _IDENT_SAMPLE + (".",), "a dotted module path", "module"
+    if "__name__" in attrs:
+        return _IDENT_SAMPLE, "an identifier", "class"
+    return None, None, None
+
+
+def _sre_accepts(items, ch):
+    """Can character `ch` be consumed by some item of this parsed (sub)pattern?  Over-approximates (any item anywhere)."""
+    import re._constants as C
+    o = ord(ch)
+
+    def in_class(av):
+        neg = bool(av) and av[0][0] is C.NEGATE
+        hit = False
+        for (op, a) in av:
+            if op is C.LITERAL and a == o:
+                hit = True
+            elif op is C.RANGE and a[0] <= o <= a[1]:
+                hit = True
+            elif op is C.CATEGORY:
+                word, digit, space = (ch.isalnum() or ch == "_"), ch.isdigit(), ch.isspace()
+                hit = hit or {C.CATEGORY_WORD: word, C.CATEGORY_NOT_WORD: not word, C.CATEGORY_DIGIT: digit, C.CATEGORY_NOT_DIGIT: not digit,
+                              C.CATEGORY_SPACE: space, C.CATEGORY_NOT_SPACE: not space}.get(a, True)
+        return hit != neg
+
+    for (op, av) in items:
+        if op is C.ANY:
+            if ch != "\n":
+                return True
+        elif op is C.LITERAL:
+            if av == o:
+                return True
+        elif op is C.NOT_LITERAL:
+            if av != o:
+                return True
+        elif op is C.IN:
+            if in_class(av):
+                return True
+        elif op in (C.MAX_REPEAT, C.MIN_REPEAT) or getattr(C, "POSSESSIVE_REPEAT", None) is op:
+            if _sre_accepts(av[2], ch):
+                return True
+        elif op is C.SUBPATTERN:
+            if _sre_accepts(av[3], ch):
+                return True
+        elif op is C.BRANCH:
+            if any(_sre_accepts(b, ch) for b in av[1]):
+                return True
+        elif getattr(C, "ATOMIC_GROUP", None) is op:
+            if _sre_accepts(av, ch):
+                return True
+        elif op in (C.AT, C.ASSERT, C.ASSERT_NOT):
+            continue
+        elif op in (C.GROUPREF, C.GROUPREF_EXISTS):
+            return True  # not modelled: assume it can
+    return False
+
+
+def _sre_group(tree, gid):
+    import re._constants as C
+    found = []
+
+    def walk(seq):
+        for (op, av) in seq:
+            if op is C.SUBPATTERN:
+                if av[0] == gid:
+                    found.append(av[3])
+                walk(av[3])
+            elif op in (C.MAX_REPEAT, C.MIN_REPEAT) or getattr(C, "POSSESSIVE_REPEAT", None) is op:
+                walk(av[2])
+            elif op is C.BRANCH:
+                for b in av[1]:
+                    walk(b)
+            elif getattr(C, "ATOMIC_GROUP", None) is op:
+                walk(av)
+    walk(tree)
+    return found[0] if len(found) == 1 else None
+
+
+def _pattern_of(fa, e, nid):
+    """(pattern text, flags expression or None) of an expression that designates a pattern: a literal, a module constant,
+    `re.compile(<that>)`, through locals."""
+    seen = 0
+    flags = None
+    while seen < 8:
+        seen += 1
+        if isinstance(e, ast.Name):
+            if fa.df.is_local(e.id):
+                try:
+                    x = fa.expand(e, nid)
+                except AnalysisError:
+                    return None, None
+                if isinstance(x, ast.Name) and x.id == e.id:
+                    return None, None
+                e = x
+                continue
+            v = fa.fi.module.assigns.get(e.id)
+            if v is None:
+                return None, None
+            e = v
+            continue
+        if isinstance(e, ast.Call) and A.call_attr(e) == "compile" and e.args:
+            flags = e.args[1] if len(e.args) > 1 else next((k.value for k in e.keywords if k.arg == "flags"), None)
+            e = e.args[0]
+            continue
+        s = A.const_str(e)
+        if s is None:
+            parts = A.str_parts(e)
+            if parts is not None and all(k == "lit" for (k, _v) in parts):
+                s = "".join(v for (_k, v) in parts)
+        return s, flags
+    return None, None
+
+
+def check_exception_name_roundtrip(ck, R):
+    ck.rule(R, "the exception name from_exception writes (language::module:qualified class name) is read back whole by to_exception: every "
+               "character a written field can contain is accepted by the group of the reader's pattern that takes that field out", 2)
+    import re._parser as sre_parse
+    fe = FA(ck, "exception.MementoException.from_exception")
+    mk = fe.one(fe.calls("MementoException"), "MementoException(...) in from_exception")
+    a_name = A.arg_or_kw(mk, 0, "exception_name")
+    ck.need(a_name is not None, "from_exception: no exception name is passed")
+    tmpl, tat = follow_value(fe, a_name, (fe.nodes(mk) or [None])[0])
+    parts = A.str_parts(tmpl)
+    ck.need(parts is not None, "from_exception: the exception name is not built from a template")
+    fields = [(v, tat) for (k, v) in parts if k == "expr"]
+    ck.need(fields, "from_exception: the exception name has no computed field")
+    tx = FA(ck, "exception.MementoException.to_exception")
+    me = (tx.fi.params or ["self"])[0]
+    uses = []
+    for c in tx.calls():
+        nm = A.call_attr(c)
+        if nm not in ("match", "fullmatch", "search") or not tx.nodes(c):
+            continue
+        recv = A.call_recv(c)
+        if isinstance(recv, ast.Name) and recv.id == "re" and not tx.df.is_local("re"):
+            if len(c.args) < 2:
+                continue
+            pe, subject, fl = c.args[0], c.args[1], (c.args[2] if len(c.args) > 2 else next((k.value for k in c.keywords if k.arg == "flags"), None))
+        elif recv is not None and c.args:
+            pe, subject, fl = recv, c.args[0], None
+        else:
+            continue
+        try:
+            if ("attr:%s.exception_name" % me) not in tx.deps(subject, tx.nodes(c)[0]):
+                continue
+        except AnalysisError:
+            continue
+        uses.append((c, pe, fl))
+    if not uses:
+        regexy = [c for c in tx.calls() if isinstance(A.call_recv(c), ast.Name) and A.call_recv(c).id == "re"]
+        ck.need(not regexy, "to_exception: a use of `re` on something other than the exception name is not followed")
+        ck.ob(R, tx.key(None, "name-fields-read-whole"), True, "to_exception does not take the name apart with a pattern: no character of a field is refused", tx.where())
+        return
+    for (c, pe, fl) in uses:
+        nid = tx.nodes(c)[0]
+        pat, fl2 = _pattern_of(tx, pe, nid)
+        ck.need(pat is not None, "to_exception: the pattern `%s` is not a constant" % A.short(pe, 50))
+        fl = fl if fl is not None else fl2
+        flags = 0
+        if fl is not None:
+            import re as _re
+            for n in ast.walk(fl):
+                nm = n.attr if isinstance(n, ast.Attribute) else (n.id if isinstance(n, ast.Name) else None)
+                if nm and nm != "re":
+                    ck.need(isinstance(getattr(_re, nm, None), _re.RegexFlag), "to_exception: pattern flags `%s` not understood" % A.short(fl, 40))
+                    flags |= int(getattr(_re, nm))
+        try:
+            tree = sre_parse.parse(pat, flags)
+        except Exception as e:
+            raise AnalysisError("to_exception: the pattern %r does not parse (%s)" % (pat, e))
+        ngroups = tree.state.groups - 1
+        names = dict(tree.state.groupdict)
+        # the groups the reader takes out: m.group(i) / m[i] / m.group('name') on the match, or all of them (m.groups())
+        mvars = set()
+        st = tx.stmt_of(c)
+        if isinstance(st, ast.Assign):
+            mvars = {t.id for t in st.targets if isinstance(t, ast.Name)}
+        for n in A.walk_body(tx.node):
+            if isinstance(n, ast.NamedExpr) and n.value is c and isinstance(n.target, ast.Name):
+                mvars.add(n.target.id)
+        read = set()
+        everything = False
+        for n in A.walk_body(tx.node):
+            base = g = None
+            if isinstance(n, ast.Call) and A.call_attr(n) == "group" and n.args:
+                base, gs = A.call_recv(n), list(n.args)
+            elif isinstance(n, ast.Subscript) and isinstance(n.ctx, ast.Load):
+                base, gs = n.value, [n.slice]
+            elif isinstance(n, ast.Call) and A.call_attr(n) in ("groups", "groupdict"):
+                base, gs = A.call_recv(n), []
+                if base is c or (isinstance(base, ast.Name) and base.id in mvars):
+                    everything = True
+                continue
+            else:
+                continue
+            if not (base is c or (isinstance(base, ast.Name) and base.id in mvars)):
+                continue
+            for g in gs:
+                if isinstance(g, ast.Constant) and isinstance(g.value, int) and not isinstance(g.value, bool):
+                    if g.value:
+                        read.add(g.value)
+                elif A.const_str(g) in names:
+                    read.add(names[A.const_str(g)])
+                else:
+                    everything = True
+        if everything or not read:
+            read = set(range(1, ngroups + 1))
+        order = sorted(read)
+
+        def groups_reaching(exprs):
+            """the groups whose text flows into one of these expressions (a group is designated by its number / name)"""
+            out = set()
+            for (x, at_) in exprs:
+                try:
+                    ds = tx.deps(x, at_)
+                except AnalysisError:
+                    continue
+                for d in ds:
+                    if d.startswith("const:"):
+                        try:
+                            v = ast.literal_eval(d[6:])
+                        except (ValueError, SyntaxError):
+                            continue
+                        if isinstance(v, int) and not isinstance(v, bool) and v in read:
+                            out.add(v)
+                        elif isinstance(v, str) and names.get(v) in read:
+                            out.add(names[v])
+            return out
+
+        imported, looked_up = [], []
+        for c2 in tx.calls():
+            nm2 = A.call_attr(c2)
+            if not tx.nodes(c2):
+                continue
+            if nm2 in ("import_module", "__import__") and c2.args:
+                imported.append((c2.args[0], tx.nodes(c2)[0]))
+            elif nm2 == "getattr" and isinstance(c2.func, ast.Name) and len(c2.args) >= 2:
+                looked_up.append((c2.args[1], tx.nodes(c2)[0]))
+            elif nm2 == "attrgetter" and c2.args:
+                looked_up.append((c2.args[0], tx.nodes(c2)[0]))
+            elif nm2 == "reduce" and len(c2.args) >= 2 and isinstance(c2.args[0], ast.Name) and c2.args[0].id == "getattr":
+                looked_up.append((c2.args[1], tx.nodes(c2)[0]))
+        by_role = {"module": groups_reaching(imported), "class": groups_reaching(looked_up) - groups_reaching(imported)}
+        for k, (fexpr, fat) in enumerate(fields):
+            alpha, what, role = _field_alphabet(fe, fexpr, fat)
+            if alpha is None:
+                continue
+            cand = by_role.get(role) or set()
+            if len(cand) == 1:
+                gid = next(iter(cand))       # by what the reader does with the group: imports it / looks it up in the module
+            else:
+                ck.need(len(order) == len(fields), "to_exception: which group of the pattern takes out field %d (`%s`) of the written name is not evident"
+                        % (k + 1, A.short(fexpr, 40)))
+                gid = order[k]
+            sub = _sre_group(tree, gid)
+            ck.need(sub is not None, "to_exception: group %d of the pattern not found exactly once" % gid)
+            refused = [ch for ch in alpha if not _sre_accepts(sub, ch)]
+            ok = not refused
+            ck.ob(R, tx.key(None, "name-field-%d-read-whole" % (k + 1)), ok,
+                  "group %d of the name pattern accepts every character of field %d (%s)" % (gid, k + 1, what) if ok else
+                  "group %d of the name pattern %r cannot hold %s: field %d of the written name is `%s`, %s. The reader cuts the field at that character "
+                  "(or refuses the name), so the replay resolves another class -- the enclosing class of a nested exception class -- or none, and raises "
+                  "it instead of the recorded class" % (gid, pat, ", ".join(repr(ch) for ch in refused), k + 1, A.short(fexpr, 40), what), tx.where(c))
+
+
+
 def check(ck):
     from .memo import check_new_memo_tables
     ck.run(check_new_memo_tables, ck, "C02.M1", ('runner_local', 'runner', 'storage_base', 'storage_filesystem', 'exception', 'base', 'metadata'))
@@ -2364,6 +2659,7 @@ def check(ck):
     ck.run(check_run_record_replay, ck, "C02.R3")
     ck.run(check_replay, ck, "C02.R4")
     ck.run(check_exception_surface, ck, "C02.R4")
+    ck.run(check_exception_name_roundtrip, ck, "C02.R11")
     ck.rule("C02.R5", "forget / memento / metadata address the same key as call(): every keyed reference construction in "
                       "base.py passes the function's own context args", 6)
     sibling_reference_sites(ck, "C02.R5")
